@@ -31,6 +31,7 @@ RULE = (
 ADVANCES = (3, IDLE - 1, IDLE, IDLE + 1)
 MENU = {k: list(v) for k, v in simnet.MENU_CONN.items()}
 MENU["recv"] = MENU["recv"] + ["slow"]
+MENU["settimeout"] = ["oserror"]  # also a failure while the connection is being set up
 
 
 def alphabet(tier):
